@@ -114,3 +114,27 @@ Definition check_cmd (i:cmd_in) (o:cres) : bool :=
 (* ---------- exact correspondence ---------- *)
 Definition corr_cmd (i:cmd_in) (o:cres) : bool := cres_eqb (run_command i) o.
 Definition inclass_cmd (i:cmd_in) : bool := cmd_pre i.
+
+(* ---------- sequences of typed commands on one database ---------- *)
+(* one case = the commands of a session, each with the rows it found and what was observed of it; the rows a command
+   leaves are the rows the next one finds (same multiset) *)
+Definition rows_after (o:cres) : list str := match o with COk _ r => r | CFail _ _ r => r end.
+Fixpoint chained (l:list (cmd_in * cres)) : bool :=
+  match l with
+  | p :: ((q :: _) as rest) => same_rowsb (rows_after (snd p)) (c_rows (fst q)) && chained rest
+  | _ => true
+  end.
+Definition corr_cmds (l:list (cmd_in * cres)) (_:unit) : bool := forallb (fun p => corr_cmd (fst p) (snd p)) l.
+Definition check_cmds (l:list (cmd_in * cres)) (_:unit) : bool :=
+  chained l && forallb (fun p => check_cmd (fst p) (snd p)) l.
+Definition inclass_cmds (l:list (cmd_in * cres)) : bool := forallb (fun p => cmd_pre (fst p)) l.
+Definition Cmds_hold (l:list (cmd_in * cres)) : Prop := Forall (fun p => Cmd_holds (fst p) (snd p)) l.
+
+(* the model run as a session: every command finds the rows the previous one left *)
+Definition with_rows (i:cmd_in) (rows:list str) : cmd_in :=
+  mkCmd (c_revs i) (c_oracle i) (c_ndeps i) rows (c_up i) (c_target i).
+Fixpoint run_session (rows:list str) (cmds:list cmd_in) : list (cmd_in * cres) :=
+  match cmds with
+  | [] => []
+  | c :: rest => let i := with_rows c rows in let o := run_command i in (i, o) :: run_session (rows_after o) rest
+  end.
